@@ -162,6 +162,7 @@ def eval_inv(I, loop, entry_heap, frame, i, seq, tr_entry, mode="assume"):
     ctx = I.ctx
     spec = Spec(ctx, entry_heap, ctx.snapshot())
     spec.mode = mode
+    spec.fn_tr_old_len = ctx.ghost["entry"][1] if "entry" in ctx.ghost else tr_entry
     spec.tr, spec.trlen, spec.tr_old_len = ctx.tr, ctx.trlen, tr_entry
     if seq is not None:
         spec.seq = spec.view(seq, spec.new_heap)
@@ -270,6 +271,8 @@ def symbolic_for(I, frame, s, it, ordinal):
     loop = find_loop_spec(I, frame, ordinal)
     if loop is None:
         raise Unsupported("for loop %d of %s over a sequence of unknown length has no invariant" % (ordinal, frame.fi.key if frame.fi else "?"))
+    if isinstance(it, SV) and isinstance(it.ty, TAbs) and it.ty.name == "trio.ReceiveChannel":
+        return stream_for(I, frame, s, it, ordinal, loop)
     map_iter = None
     if isinstance(it, MapIter):
         # iterate a heap map through its key sequence
@@ -323,6 +326,49 @@ def symbolic_for(I, frame, s, it, ordinal):
                 ctx.oblige("%s/iteration[%s]" % (name, lab), _b(f), kind="loop")
         raise PathEnd()
     ctx.assume(i == n)
+    I.exec_block(frame, s.orelse)
+
+
+def stream_for(I, frame, s, ch, ordinal, loop):
+    """`async for item in receive_channel`: an unbounded stream; each iteration receives one more item (assumed: each sent
+    item is delivered exactly once, in order) and the loop ends when the send side is closed"""
+    ctx = I.ctx
+    name = loop_name(frame, ordinal)
+    entry_heap = ctx.snapshot()
+    tr_entry = ctx.trlen
+    for lab, f in eval_inv(I, loop, entry_heap, frame, z3.IntVal(0), None, tr_entry, "prove").items():
+        ctx.oblige("%s/init[%s]" % (name, lab), f, kind="loop")
+    names = assigned_names(s.body, s.target)
+    havoc_loop(I, loop, frame, names, entry_heap, None)
+    k = fresh("received", z3.IntSort())
+    ctx.assume(k >= 0)
+    for lab, f in eval_inv(I, loop, entry_heap, frame, k, None, tr_entry).items():
+        ctx.assume(f)
+    if ctx.choose(2, "stream%d" % ordinal) == 0:
+        item = SV(fresh_val("item"), ANY)
+        iter_heap, iter_tr, iter_locals = ctx.snapshot(), ctx.trlen, dict(frame.locals)
+        n_own = len(ctx.own_stores)
+        ctx.emit("chan.receive", ch, item)
+        I.assign(frame, s.target, item)
+        iter_locals = dict(frame.locals)
+        try:
+            I.exec_block(frame, s.body)
+        except ContinueSig:
+            pass
+        except BreakSig:
+            return
+        for lab, f in eval_inv(I, loop, entry_heap, frame, k + 1, None, tr_entry, "prove").items():
+            ctx.oblige("%s/preserve[%s]" % (name, lab), f, kind="loop")
+        check_loop_frame(I, loop, frame, entry_heap, None, n_own, name)
+        if loop.step is not None:
+            spec = Spec(ctx, iter_heap, ctx.snapshot())
+            spec.mode = "prove"
+            spec.tr, spec.trlen, spec.tr_old_len = ctx.tr, ctx.trlen, iter_tr
+            fr0 = types.SimpleNamespace(locals=iter_locals)
+            for lab, f in loop.step(spec, Locals(spec, frame, spec.new_heap), Locals(spec, fr0, iter_heap)).items():
+                ctx.oblige("%s/iteration[%s]" % (name, lab), _b(f), kind="loop")
+        raise PathEnd()
+    ctx.emit("chan.end", ch)
     I.exec_block(frame, s.orelse)
 
 
